@@ -218,6 +218,404 @@ class Tr:
         raise Unsupported('statement ' + ast.dump(s)[:80])
 
 
+# ---------- imperative subset (new targets; the class above is frozen so that old output stays byte-identical) ----------
+def tmatch(pat, e, env):
+    """structural match of AST e against the template AST pat; names _1 .. _9 of the template are holes"""
+    if isinstance(pat, ast.Name) and re.fullmatch(r'_\d', pat.id):
+        if pat.id in env:
+            return ast.dump(env[pat.id]) == ast.dump(e)
+        env[pat.id] = e
+        return True
+    if type(pat) is not type(e):
+        return False
+    for f in pat._fields:
+        a, b = getattr(pat, f, None), getattr(e, f, None)
+        if isinstance(a, list):
+            if not isinstance(b, list) or len(a) != len(b): return False
+            for x, y in zip(a, b):
+                if isinstance(x, ast.AST):
+                    if not isinstance(y, ast.AST) or not tmatch(x, y, env): return False
+                elif x != y:
+                    return False
+        elif isinstance(a, ast.AST):
+            if not isinstance(b, ast.AST) or not tmatch(a, b, env): return False
+        elif a != b:
+            return False
+    return True
+
+
+def tpl(src):
+    return ast.parse(src, mode='eval').body
+
+
+RESERVED = {'length', 'firstn', 'skipn', 'repeat', 'sumz', 'lastn', 'app', 'fix', 'end', 'at', 'as', 'fun', 'match', 'type',
+            'in', 'let', 'if', 'then', 'else', 'with', 'return', 'bytes', 'slice', 'be', 'unbe', 'map', 'filter', 'rev', 'nth',
+            'fst', 'snd', 'Some', 'None', 'true', 'false', 'negb', 'andb', 'orb', 'existsb', 'forallb'}
+
+
+def has_exit(stmts):
+    """does the statement list contain a return / raise (at any depth)"""
+    for s in stmts:
+        for n in ast.walk(s):
+            if isinstance(n, (ast.Return, ast.Raise)): return True
+    return False
+
+
+class TrI(Tr):
+    """Imperative subset on top of Tr (see the module docstring, "Imperative subset").
+    atoms : [(template source, coq format over the translated holes, result type, [hole types])]   opaque total expressions
+    ratoms: [(template source, coq format of an OPTION-valued term, result type, [hole types], exception name)]
+            expressions that may raise: hoisted in evaluation order in front of the statement that contains them
+    skip  : exact source texts (ast.unparse) of statements that are passed over; each must occur exactly once
+    octets: coq terms declared to be octets (0..255), so that bytearray.append / bytearray([..]) cannot raise on them
+    raises: result type is `gres T` (GOk / GRaise "ExceptionClass") instead of T
+    """
+
+    def __init__(self, names=None, calls=None, consts=None, atoms=(), ratoms=(), skip=(), octets=(), raises=False):
+        super().__init__(names, calls, consts, raises)
+        self.atoms = [(tpl(a[0]),) + tuple(a[1:]) for a in atoms]
+        self.ratoms = [(tpl(a[0]),) + tuple(a[1:]) for a in ratoms]
+        self.skip = {s: 0 for s in skip}
+        self.octets = set(octets)
+        self.pending = None     # list of (var, option term, exception name) while a statement is being translated
+        self.noho = 0           # > 0 inside a short-circuit operand / conditional-expression arm: hoisting is not sound there
+        self.cache = {}
+        self.fresh = 0
+
+    # ----- opaque atoms -----
+    def find_atom(self, e):
+        for i, a in enumerate(self.atoms):
+            env = {}
+            if tmatch(a[0], e, env): return ('a', a, env)
+        for i, a in enumerate(self.ratoms):
+            env = {}
+            if tmatch(a[0], e, env): return ('r', a, env)
+        return None
+
+    def holes(self, a, env):
+        out = []
+        for i, t in enumerate(a[3]):
+            h = env.get('_%d' % (i + 1))
+            if h is None: raise Unsupported('template hole _%d unbound' % (i + 1))
+            if self.typ(h) != t: raise Unsupported('template hole _%d: %s vs %s' % (i + 1, self.typ(h), t))
+            out.append(self.expr(h))
+        return out
+
+    def hoist(self, e, opt, exc):
+        if self.pending is None or self.noho:
+            raise Unsupported('expression that may raise (%s) in a position where it cannot be hoisted: %s' % (exc, ast.unparse(e)[:60]))
+        if id(e) in self.cache: return self.cache[id(e)]
+        v = 'h%d_' % self.fresh
+        self.fresh += 1
+        self.pending.append((v, opt, exc))
+        self.cache[id(e)] = v
+        return v
+
+    def is_octet(self, e):
+        if isinstance(e, ast.Constant) and isinstance(e.value, int) and not isinstance(e.value, bool):
+            return 0 <= e.value < 256
+        if isinstance(e, ast.Call) and self.callee(e) == 'int' and len(e.args) == 1 and self.typ(e.args[0]) == 'bool':
+            return True
+        try:
+            return self.expr(e) in self.octets
+        except Unsupported:
+            return False
+
+    def octet_list(self, l):
+        if not isinstance(l, ast.List): raise Unsupported('bytearray([...]) of a non-literal list')
+        for x in l.elts:
+            if self.typ(x) != 'Z' or not self.is_octet(x):
+                raise Unsupported('list element not known to be an octet (bytearray([..]) may raise ValueError): ' + ast.unparse(x)[:40])
+        return '[' + '; '.join(self.expr(x) for x in l.elts) + ']'
+
+    # ----- types -----
+    def typ(self, e):
+        m = self.find_atom(e)
+        if m: return m[1][2]
+        if isinstance(e, ast.Call):
+            n = self.callee(e)
+            if isinstance(e.func, ast.Name):
+                if n in ('bytes', 'bytearray') and len(e.args) <= 1 and not e.keywords: return 'bytes'
+                if n in ('len', 'sum') and len(e.args) == 1 and not e.keywords: return 'Z'
+        if isinstance(e, ast.BinOp) and isinstance(e.op, ast.Mult) and self.typ(e.left) == 'bytes': return 'bytes'
+        if isinstance(e, ast.UnaryOp) and isinstance(e.op, ast.USub) and self.typ(e.operand) == 'Z': return 'Z'
+        if isinstance(e, ast.Subscript) and not isinstance(e.slice, ast.Slice):
+            if self.typ(e.value) == 'bytes': return 'Z'
+        return super().typ(e)
+
+    # ----- expressions -----
+    def expr(self, e):
+        m = self.find_atom(e)
+        if m:
+            kind, a, env = m
+            txt = a[1].format(*self.holes(a, env))
+            if kind == 'a': return txt
+            return self.hoist(e, txt, a[4])
+        if isinstance(e, ast.Call) and isinstance(e.func, ast.Name) and not e.keywords:
+            n = e.func.id
+            if n in ('bytes', 'bytearray'):
+                if len(e.args) == 0: return '[]'
+                if len(e.args) == 1:
+                    a = e.args[0]
+                    if isinstance(a, ast.List): return self.octet_list(a)
+                    if self.typ(a) == 'bytes': return self.expr(a)          # conversion between bytes / bytearray: identity
+                    raise Unsupported('%s(%s)' % (n, self.typ(a)))
+            if n == 'len' and len(e.args) == 1:
+                if self.typ(e.args[0]) != 'bytes': raise Unsupported('len of non-bytes')
+                return '(Z.of_nat (length %s))' % self.expr(e.args[0])
+            if n == 'sum' and len(e.args) == 1:
+                if self.typ(e.args[0]) != 'bytes': raise Unsupported('sum of non-bytes')
+                return '(sumz %s)' % self.expr(e.args[0])
+        if isinstance(e, ast.UnaryOp) and isinstance(e.op, ast.USub) and self.typ(e.operand) == 'Z':
+            return '(Z.opp %s)' % self.expr(e.operand)
+        if isinstance(e, ast.BinOp) and isinstance(e.op, ast.Mult) and self.typ(e.left) == 'bytes':
+            # b'\x00' * n : n copies (none when n <= 0)
+            if not (isinstance(e.left, ast.Constant) and len(e.left.value) == 1) or self.typ(e.right) != 'Z':
+                raise Unsupported('bytes * int for anything but a one-octet literal')
+            return '(repeat (%d) (Z.to_nat %s))' % (e.left.value[0], self.expr(e.right))
+        if isinstance(e, ast.Compare) and len(e.ops) == 1 and isinstance(e.ops[0], (ast.Eq, ast.NotEq)) \
+                and self.typ(e.left) == 'bytes' and self.typ(e.comparators[0]) == 'bytes':
+            s = '(eqb_bytes %s %s)' % (self.expr(e.left), self.expr(e.comparators[0]))
+            return s if isinstance(e.ops[0], ast.Eq) else '(negb %s)' % s
+        if isinstance(e, ast.BoolOp):
+            op = 'andb' if isinstance(e.op, ast.And) else 'orb'
+            out = self.cond(e.values[0])
+            self.noho += 1
+            try:
+                for v in e.values[1:]:
+                    out = '(%s %s %s)' % (op, out, self.cond(v))
+            finally:
+                self.noho -= 1
+            return out
+        if isinstance(e, ast.IfExp):
+            c = self.cond(e.test)
+            self.noho += 1
+            try:
+                return '(if %s then %s else %s)' % (c, self.expr(e.body), self.expr(e.orelse))
+            finally:
+                self.noho -= 1
+        if isinstance(e, ast.Subscript) and self.typ(e.value) == 'bytes':
+            v = self.expr(e.value)
+            if isinstance(e.slice, ast.Slice):
+                return self.pyslice(v, e.slice)
+            # indexing raises IndexError outside the range; negative literal indices count from the end
+            i = e.slice
+            if isinstance(i, ast.Constant) and isinstance(i.value, int) and not isinstance(i.value, bool):
+                if i.value >= 0:
+                    return self.hoist(e, '(nth_error %s %d%%nat)' % (v, i.value), 'IndexError')
+                return self.hoist(e, '(nth_error (rev %s) %d%%nat)' % (v, -i.value - 1), 'IndexError')
+            raise Unsupported('index that is not an integer literal')
+        return super().expr(e)
+
+    def neglit(self, b):
+        """value of a NEGATIVE integer literal bound (-20), else None"""
+        if isinstance(b, ast.UnaryOp) and isinstance(b.op, ast.USub) and isinstance(b.operand, ast.Constant) \
+                and isinstance(b.operand.value, int) and not isinstance(b.operand.value, bool) and b.operand.value > 0:
+            return -b.operand.value
+        return None
+
+    def poslit(self, b):
+        if isinstance(b, ast.Constant) and isinstance(b.value, int) and not isinstance(b.value, bool) and b.value >= 0:
+            return b.value
+        return None
+
+    def pyslice(self, v, sl):
+        """Python slice v[lo:hi] (clamping, never raising).
+        literal bounds:  v[:k] -> firstn k v;  v[k:] -> skipn k v;  v[j:k] -> slice j k v          (k, j >= 0)
+                         v[:-k] -> firstn (length v - k) v   (empty when len < k: nat subtraction truncates, as Python clamps)
+                         v[-k:] -> lastn k v = skipn (length v - k) v   (the whole of v when len < k)
+        other bounds (type Z, sign unknown): py_upto / py_from / py_slice of Gen_base.v."""
+        if sl.step is not None: raise Unsupported('slice step')
+        lo, hi = sl.lower, sl.upper
+        if lo is None and hi is None: return v
+        if lo is None:
+            if self.poslit(hi) is not None: return '(firstn %d%%nat %s)' % (self.poslit(hi), v)
+            if self.neglit(hi) is not None: return '(firstn (length %s - %d%%nat)%%nat %s)' % (v, -self.neglit(hi), v)
+            if self.typ(hi) != 'Z': raise Unsupported('slice bound type')
+            return '(py_upto %s %s)' % (self.expr(hi), v)
+        if hi is None:
+            if self.poslit(lo) is not None: return '(skipn %d%%nat %s)' % (self.poslit(lo), v)
+            if self.neglit(lo) is not None: return '(lastn %d%%nat %s)' % (-self.neglit(lo), v)
+            if self.typ(lo) != 'Z': raise Unsupported('slice bound type')
+            return '(py_from %s %s)' % (self.expr(lo), v)
+        if self.poslit(lo) is not None and self.poslit(hi) is not None:
+            return '(slice %d%%nat %d%%nat %s)' % (self.poslit(lo), self.poslit(hi), v)
+        if self.typ(lo) != 'Z' or self.typ(hi) != 'Z': raise Unsupported('slice bound type')
+        return '(py_slice %s %s %s)' % (self.expr(lo), self.expr(hi), v)
+
+    # ----- statements -----
+    def cname(self, n):
+        return n + '_' if n in RESERVED or re.fullmatch(r'h\d+_', n) else n
+
+    def ret(self, s):
+        return ('(GOk %s)' % s) if self.raises else s
+
+    def wrap(self, pend, body):
+        for v, opt, exc in reversed(pend):
+            body = '(match %s with Some %s => %s | None => GRaise "%s"%%string end)' % (opt, v, body, exc)
+        return body
+
+    def simple(self, fn):
+        """run fn() (which translates the expressions of ONE simple statement) collecting the hoisted raising atoms"""
+        if self.pending is not None: raise Unsupported('nested statement translation')
+        self.pending = []
+        try:
+            r = fn()
+            pend = self.pending
+        finally:
+            self.pending = None
+        if pend and not self.raises: raise Unsupported('expression may raise %s in a function declared total' % pend[0][2])
+        return r, pend
+
+    def bind(self, n, t, v, rest, k, pend=()):
+        cn = self.cname(n)
+        saved = self.names.get(n)
+        self.names[n] = (cn, t)
+        try:
+            body = self.block(rest, k)
+        finally:
+            if saved is None: del self.names[n]
+            else: self.names[n] = saved
+        return self.wrap(pend, '(let %s := %s in\n %s)' % (cn, v, body))
+
+    def assigned(self, stmts, top=None):
+        """local names (re)bound by the statement list (any depth)"""
+        out = []
+        for s in stmts:
+            for n in ast.walk(s):
+                t = None
+                if isinstance(n, ast.Assign) and len(n.targets) == 1 and isinstance(n.targets[0], ast.Name): t = n.targets[0].id
+                elif isinstance(n, ast.AugAssign) and isinstance(n.target, ast.Name): t = n.target.id
+                elif isinstance(n, ast.Expr) and isinstance(n.value, ast.Call) and isinstance(n.value.func, ast.Attribute) \
+                        and n.value.func.attr in ('append', 'extend') and isinstance(n.value.func.value, ast.Name): t = n.value.func.value.id
+                elif isinstance(n, ast.Delete):
+                    for x in n.targets:
+                        if isinstance(x, ast.Subscript) and isinstance(x.value, ast.Name) and x.value.id not in out: out.append(x.value.id)
+                        if isinstance(x, ast.Name) and x.id not in out: out.append(x.id)
+                if t is not None and t not in out: out.append(t)
+        return out
+
+    def definitely(self, stmts):
+        """names assigned by a top-level `name = ...` of the list (assigned on every path through it)"""
+        return [s.targets[0].id for s in stmts
+                if isinstance(s, ast.Assign) and len(s.targets) == 1 and isinstance(s.targets[0], ast.Name)]
+
+    def kont(self, k):
+        return k() if callable(k) else k
+
+    def block(self, stmts, k=None):
+        if not stmts:
+            if k is None: raise Unsupported('fall-through without return')
+            return self.kont(k)
+        s, rest = stmts[0], stmts[1:]
+        src = ast.unparse(s)
+        if src in self.skip:
+            self.skip[src] += 1
+            return self.block(rest, k)
+        if isinstance(s, ast.Expr) and isinstance(s.value, ast.Constant) and isinstance(s.value.value, str):
+            return self.block(rest, k)
+        if isinstance(s, ast.Pass):
+            return self.block(rest, k)
+        if isinstance(s, ast.Return):
+            if s.value is None: raise Unsupported('bare return')
+            v, pend = self.simple(lambda: self.expr(s.value))
+            return self.wrap(pend, self.ret(v))
+        if isinstance(s, ast.Raise):
+            if not self.raises: raise Unsupported('raise in a function declared total')
+            if s.cause is not None: raise Unsupported('raise ... from')
+            x = s.exc
+            if isinstance(x, ast.Call): x = x.func
+            if not isinstance(x, ast.Name): raise Unsupported('raise of ' + ast.unparse(s)[:40])
+            return '(GRaise "%s"%%string)' % x.id
+        if isinstance(s, ast.Assign) and len(s.targets) == 1 and isinstance(s.targets[0], ast.Name):
+            (t, v), pend = self.simple(lambda: (self.typ(s.value), self.expr(s.value)))
+            if t not in ('Z', 'bool', 'bytes'): raise Unsupported('assignment of a value of type ' + t)
+            return self.bind(s.targets[0].id, t, v, rest, k, pend)
+        if isinstance(s, ast.AugAssign) and isinstance(s.target, ast.Name):
+            v = ast.BinOp(left=ast.Name(id=s.target.id, ctx=ast.Load()), op=s.op, right=s.value)
+            a = ast.fix_missing_locations(ast.copy_location(ast.Assign(targets=[s.target], value=v), s))
+            return self.block([a] + rest, k)
+        if isinstance(s, ast.Expr) and isinstance(s.value, ast.Call) and isinstance(s.value.func, ast.Attribute) \
+                and s.value.func.attr == 'append' and isinstance(s.value.func.value, ast.Name) \
+                and len(s.value.args) == 1 and not s.value.keywords:
+            # x.append(o): bytearray.append raises ValueError unless 0 <= o < 256 -> o must be a declared octet
+            n = s.value.func.value.id
+            if n not in self.names or self.names[n][1] != 'bytes': raise Unsupported('append to non-bytes ' + n)
+            a = s.value.args[0]
+            def f():
+                if self.typ(a) != 'Z' or not self.is_octet(a):
+                    raise Unsupported('append of a value not known to be an octet: ' + ast.unparse(a)[:60])
+                return self.expr(a)
+            v, pend = self.simple(f)
+            return self.bind(n, 'bytes', '(%s ++ [%s])' % (self.names[n][0], v), rest, k, pend)
+        if isinstance(s, ast.Delete) and len(s.targets) == 1:
+            x = s.targets[0]
+            if isinstance(x, ast.Name):
+                # del name: the name is unbound afterwards (a later use is then an unknown name -> Unsupported)
+                if x.id not in self.names: raise Unsupported('del of unknown name ' + x.id)
+                saved = self.names.pop(x.id)
+                try:
+                    return self.block(rest, k)
+                finally:
+                    self.names[x.id] = saved
+            if isinstance(x, ast.Subscript) and isinstance(x.value, ast.Name) and x.value.id in self.names \
+                    and self.names[x.value.id][1] == 'bytes':
+                n = x.value.id
+                cn = self.names[n][0]
+                if isinstance(x.slice, ast.Slice):
+                    sl = x.slice
+                    if sl.step is not None: raise Unsupported('del with slice step')
+                    def f():
+                        if sl.lower is None and sl.upper is not None:      # del x[:k]  ==  x = x[k:]
+                            return self.pyslice(cn, ast.Slice(lower=sl.upper, upper=None, step=None))
+                        if sl.upper is None and sl.lower is not None:      # del x[k:]  ==  x = x[:k]
+                            return self.pyslice(cn, ast.Slice(lower=None, upper=sl.lower, step=None))
+                        raise Unsupported('del x[a:b] with both or no bounds')
+                    v, pend = self.simple(f)
+                    return self.bind(n, 'bytes', v, rest, k, pend)
+                if self.poslit(x.slice) == 0:
+                    # del x[0]: IndexError on an empty sequence
+                    if not self.raises: raise Unsupported('del x[0] may raise IndexError')
+                    body = self.bind(n, 'bytes', '(skipn 1%%nat %s)' % cn, rest, k)
+                    return '(match %s with [] => GRaise "IndexError"%%string | _ :: _ => %s end)' % (cn, body)
+            raise Unsupported('del ' + ast.unparse(x)[:60])
+        if isinstance(s, ast.If):
+            c, pend = self.simple(lambda: self.cond(s.test))
+            if not has_exit(s.body) and not has_exit(s.orelse):
+                # join: the branches only rebind locals; those that are visible afterwards are returned as a tuple
+                before = set(self.names)
+                both = set(self.definitely(s.body)) & set(self.definitely(s.orelse))
+                ex = [v for v in self.assigned(s.body + s.orelse) if v in before or v in both]
+                types = {}
+                def kf():
+                    for v in ex:
+                        if v not in self.names: raise Unsupported('name %s is deleted in a branch' % v)
+                        t = self.names[v][1]
+                        if types.setdefault(v, t) != t: raise Unsupported('name %s has different types in the branches' % v)
+                    return '(' + ', '.join(self.names[v][0] for v in ex) + ')' if len(ex) != 1 else self.names[ex[0]][0]
+                b1 = self.block(s.body, kf)
+                b2 = self.block(s.orelse, kf)
+                if not ex:
+                    return self.wrap(pend, self.block(rest, k))     # branches without any visible effect
+                saved = {v: self.names.get(v) for v in ex}
+                for v in ex: self.names[v] = (self.cname(v), types[v])
+                try:
+                    body = self.block(rest, k)
+                finally:
+                    for v in ex:
+                        if saved[v] is None: del self.names[v]
+                        else: self.names[v] = saved[v]
+                pat = self.cname(ex[0]) if len(ex) == 1 else "'(" + ', '.join(self.cname(v) for v in ex) + ')'
+                return self.wrap(pend, '(let %s := (if %s then %s else %s) in\n %s)' % (pat, c, b1, b2, body))
+            kk = (lambda: self.block(rest, k)) if (rest or k is not None) else None
+            return self.wrap(pend, '(if %s then %s else %s)' % (c, self.block(s.body, kk), self.block(s.orelse, kk)))
+        raise Unsupported('statement ' + ast.dump(s)[:80])
+
+    def finish(self):
+        for src, n in self.skip.items():
+            if n != 1: raise Unsupported('pinned statement occurs %d times: %s' % (n, src[:70]))
+
+
 # ---------- source helpers ----------
 def parse(rel):
     with open(os.path.join(REPO, rel)) as f:
@@ -616,6 +1014,97 @@ def gen_consts():
     write('Gen_consts.v', '\n'.join(out))
 
 
+# ---------- fixed prelude of the imperative subset ----------
+BASE = """(* GENERATED by tools/py2coq.py (fixed text) -- the Python semantics the imperative subset of the translator relies on *)
+From Coq Require Import String ZArith List Bool.
+Import ListNotations.
+Require Import PV.Lib.Bytes.
+Open Scope Z_scope.
+
+(* a function that may raise: the value, or the name of the exception class *)
+Inductive gres (A : Type) : Type := GOk (a : A) | GRaise (exc : string).
+Arguments GOk {A} a.
+Arguments GRaise {A} exc.
+
+(* Python slices never raise: a negative bound counts from the end, every bound is clamped to 0 .. len *)
+Definition py_index (n : Z) (len : nat) : nat :=
+  if n <? 0 then (len - Z.to_nat (- n))%nat else Nat.min (Z.to_nat n) len.
+(* l[:n] *)
+Definition py_upto (n : Z) (l : bytes) : bytes := firstn (py_index n (length l)) l.
+(* l[n:] *)
+Definition py_from (n : Z) (l : bytes) : bytes := skipn (py_index n (length l)) l.
+(* l[a:b] *)
+Definition py_slice (a b : Z) (l : bytes) : bytes :=
+  firstn (py_index b (length l) - py_index a (length l)) (skipn (py_index a (length l)) l).
+"""
+
+HDR2 = """(* GENERATED by tools/py2coq.py from %s -- do not edit; regenerated on every run *)
+From Coq Require Import String ZArith List Bool.
+Import ListNotations.
+Require Import PV.Lib.Bytes PV.Gen.Gen_base%s.
+Open Scope Z_scope.
+"""
+
+
+def gen_base():
+    write('Gen_base.v', BASE)
+
+
+def enum_members(tree, cls):
+    """{member name: int} of an IntEnum / IntFlag class body, in source order"""
+    c = find_class(tree, cls)
+    out = {}
+    for (cn, nm), v in class_int_consts(c).items():
+        if not nm.startswith('_'): out[nm] = v
+    return out
+
+
+# ---------- targets: pgpy/pgp.py ----------
+def gen_pgp():
+    tree = parse('pgpy/pgp.py')
+    ctree = parse('pgpy/constants.py')
+    out = [HDR2 % ('pgpy/pgp.py', '')]
+    sig = find_class(tree, 'PGPSignature')
+
+    def t_hashdata():
+        fn = find_method(sig, 'hashdata')
+        if [a.arg for a in fn.args.args] != ['self', 'subject']: raise Unsupported('hashdata signature changed')
+        st = class_int_consts(find_class(ctree, 'SignatureType'))
+        if not all(0 <= v < 256 for v in st.values()): raise Unsupported('SignatureType member outside the octet range')
+        names = {'self.type': ('t', 'Z'), 'self.key_algorithm': ('pk', 'Z'), 'self.hash_algorithm': ('h', 'Z'),
+                 'subject': ('doc', 'bytes'), 'subject.is_primary': ('s_primary', 'bool'), 'subject.is_uid': ('s_is_uid', 'bool'),
+                 'subject.hashdata': ('s_hd', 'bytes')}
+        atoms = [
+            ('self._signature.header.version if not self.embedded else self._signature._sig.header.version', 'ver', 'Z', []),
+            ('self._signature.subpackets.__hashbytearray__()', 'hashed', 'bytes', []),
+            ("re.subn(b'\\\\r?\\\\n', b'\\r\\n', subject)[0]", '(canon doc)', 'bytes', []),
+            ('isinstance(subject, (SKEData, IntegrityProtectedSKEData))', 's_is_ske', 'bool', []),
+            ('subject.__bytearray__()', 'doc', 'bytes', []),
+            ('isinstance(subject, PGPUID)', 's_isuid', 'bool', []),
+            ('isinstance(subject, PGPKey)', 's_iskey', 'bool', []),
+            ('subject._parent.hashdata', 's_uparent_hd', 'bytes', []),
+            ('subject.parent.hashdata', 's_parent_hd', 'bytes', []),
+            ('subject.subkeys[self.signer].hashdata', 's_signer_sub_hd', 'bytes', []),
+        ]
+        skip = ["if isinstance(subject, str):\n    try:\n        subject = subject.encode('utf-8')\n"
+                "    except UnicodeEncodeError:\n        subject = subject.encode('charmap')",
+                'if 0 in list(self._signature.signature):\n    self._signature.update_hlen()']
+        tr = TrI(names=names, calls=I2B, consts=st, atoms=atoms, skip=skip, octets=['t', 'pk', 'h', 'ver'])
+        body = tr.block(fn.body)
+        tr.finish()
+        return ('(* PGPSignature.hashdata.  Opaque inputs: t pk h ver = self.type, key_algorithm, hash_algorithm, header version (octets:\n'
+                '   enum members / parsed octets); hashed = subpackets.__hashbytearray__(); doc = the subject as octets (a str subject is\n'
+                '   encoded first: that statement is pinned, not translated); canon = re.subn(br\'\\r?\\n\', b\'\\r\\n\', .)[0];\n'
+                '   s_* = what the code reads off a key / user id subject (isinstance tests, is_primary, is_uid, the hashdata of the\n'
+                '   subject, of its _parent, of its parent, of subkeys[self.signer]).  AttributeError on a subject of the wrong kind is\n'
+                '   outside the translation. *)\n'
+                'Definition gen_hashdata (canon : bytes -> bytes) (t pk h ver : Z) (hashed doc : bytes)\n'
+                '  (s_is_ske s_isuid s_iskey s_primary s_is_uid : bool) (s_hd s_uparent_hd s_parent_hd s_signer_sub_hd : bytes) : bytes :=\n %s.\n'
+                % body)
+    guarded(out, 'PGPSignature.hashdata', t_hashdata)
+    write('Gen_pgp.v', '\n'.join(out))
+
+
 def write(name, txt):
     os.makedirs(OUT, exist_ok=True)
     p = os.path.join(OUT, name)
@@ -625,14 +1114,18 @@ def write(name, txt):
             f.write(txt)
 
 
+GENS = [('gen_types', 'Gen_types.v'), ('gen_ptypes', 'Gen_ptypes.v'), ('gen_consts', 'Gen_consts.v'),
+        ('gen_base', 'Gen_base.v'), ('gen_pgp', 'Gen_pgp.v')]
+
+
 def main():
-    for g in (gen_types, gen_ptypes, gen_consts):
+    for gname, fname in GENS:
+        g = globals()[gname]
         try:
             g()
         except Exception as ex:  # whole-file failure: leave a file that does not compile
             FAILED.append((g.__name__, '%s: %s' % (type(ex).__name__, ex)))
-            write({'gen_types': 'Gen_types.v', 'gen_ptypes': 'Gen_ptypes.v', 'gen_consts': 'Gen_consts.v'}[g.__name__],
-                  '(* TRANSLATION FAILED: %s *)\nTranslation_failed.\n' % str(ex).replace('*)', '* )'))
+            write(fname, '(* TRANSLATION FAILED: %s *)\nTranslation_failed.\n' % str(ex).replace('*)', '* )'))
     for n, r in FAILED:
         print('py2coq: FAILED %s: %s' % (n, r))
     print('py2coq: %d target(s) failed' % len(FAILED))
